@@ -12,7 +12,7 @@ import numpy as np
 from ..core import util
 from ..oracles import stats as S
 
-TECHNIQUE = "runtime sample monitor on the noise-factory callables: DKW band against the closed-form CDF (variance, not sd), moment z-scores with escalation, support/shape/reproducibility checks over a parameter grid x seeds"
+TECHNIQUE = "runtime sample monitor on the noise-factory callables: DKW band against the closed-form CDF (variance, not sd), moment z-scores with escalation, pooled standardised moment errors over hundreds of parameter settings, support/shape/reproducibility checks over a parameter grid x seeds"
 LEVEL_TEXT = ("Each factory is called over a grid of parameters (means of both signs, variances 0.01..100, ranges of both signs, scales "
               "0.1..5, defaults) and several seeds; the returned arrays are monitored for shape (n,) at n in {0,1,7,N}, support, "
               "empirical CDF within the DKW band of the documented law at N = 1e5 (quick) / 1e6 (thorough), first two moments, lag-1 "
